@@ -23,7 +23,7 @@ INFO = dict(
               'delay, requests arrive at symbolic instants (each in its own greenlet), the transport faults at a symbolic instant; oracle: never '
               'more than one live underlying sink, concurrent first requests share one CreateSink/Open, every request reaches the sink that is '
               'current, after a failure the next request creates exactly one fresh sink.',
-  bounds={'quick': 'ref count symbolic in [0, 10^6]; histories k <= 6; singleton: 2 requests + 1 fault', 'thorough': 'histories k <= 12; singleton: 3 requests + 1 fault'},
+  bounds={'quick': 'ref count symbolic in [0, 10^6]; histories k <= 6; an underlying Close() that yields while another holder opens at a symbolic instant; sharing key stable after a fault; singleton: 2 requests + 1 fault', 'thorough': 'histories k <= 12; singleton: 3 requests + 1 fault'},
   outside=['more than 3 concurrent requests on the singleton pool', 'Open() of the underlying transport failing (covered with the real transports in C08/C09)'],
   stubs=['fake underlying sinks recording Open/Close/CreateSink (3.12)', 'virtual loop (3.1)'],
   assumptions=['A1, A3'],
